@@ -118,11 +118,21 @@ Fixpoint by_value (m : list (str * Z)) (z : Z) : option str :=
 Fixpoint by_name (m : list (str * Z)) (n : str) : option str :=
   match m with [] => None | (k, _) :: r => if str_eqb k n then Some k else by_name r n end.
 
-Definition parse_enum (m : list (str * Z)) (s : str) : res :=
+(* the spellings of a name that are tried, in order (T-G regenerates this list from the source) *)
+Inductive nametr : Type := NExact | NUpper | NLower.
+Definition spell (t : nametr) (s : str) : str := match t with NExact => s | NUpper => upper s | NLower => lower s end.
+Fixpoint by_names (m : list (str * Z)) (l : list nametr) (s : str) : option str :=
+  match l with
+  | [] => None
+  | t :: r => match by_name m (spell t s) with Some n => Some n | None => by_names m r s end
+  end.
+Definition parse_enum_with (l : list nametr) (m : list (str * Z)) (s : str) : res :=
   match match py_int s with Some z => by_value m z | None => None end with
   | Some n => Ok (VEnum n)
-  | None => match by_name m (upper s) with Some n => Ok (VEnum n) | None => Err KeyError end
+  | None => match by_names m l s with Some n => Ok (VEnum n) | None => Err KeyError end
   end.
+Definition enum_lookup : list nametr := [NExact; NUpper].       (* the member itself, else its upper-case spelling *)
+Definition parse_enum := parse_enum_with enum_lookup.
 
 Fixpoint dict_set (d : list (str * str)) (k v : str) : list (str * str) :=
   match d with
